@@ -118,7 +118,12 @@ class DOMParser:
         context = ParseContext(self, options, False)
 
         for d in itertools.chain([dom_], dom_.iterdescendants()):
-            if d.text is not None and d.text.strip() and d.tag.lower() != "lxmltext":
+            if (
+                isinstance(d.tag, str)  # comments and processing instructions have no tag name
+                and d.text is not None
+                and d.text.strip()
+                and d.tag.lower() != "lxmltext"
+            ):
                 child = lxml.html.Element("lxmltext")
                 child.text = d.text
                 d.insert(0, child)
